@@ -52,17 +52,38 @@ def dstExcluded (c : Config) (p : Packet) : Bool :=
 def dstIncluded (c : Config) (p : Packet) : Bool :=
   c.outIncludeAll || (c.outInclude.filter (sameFam p)).any (·.contains p.dst)
 
+/-! ### Two notions the policy needs, stated here on their own (NOT taken from the compiler model's
+`Config.dns` / `Config.noLoopbackIncluded`; `Lemmas.lean` proves that the model's derived fields agree) -/
+
+/-- DNS capture is in force: REDIRECT_DNS, and something to capture - every resolver (CAPTURE_ALL_DNS) or
+    at least one known DNS server of either family. -/
+def dnsActive (c : Config) : Bool :=
+  c.redirectDNS && (c.captureAllDNS || !c.dnsV4.isEmpty || !c.dnsV6.isEmpty)
+
+def loopbackNet4 : Cidr := ⟨false, 2130706432, 8⟩     -- 127.0.0.0/8
+
+/-- The range was WRITTEN with a loopback address (127.x.y.z/n, ::1/n, ::ffff:127.x.y.z/n), whatever its
+    prefix length: 127.5.5.5/1 counts, 126.0.0.0/7 and 0.0.0.0/0 do not although they cover 127.0.0.0/8. -/
+def writtenAsLoopback (x : Cidr) : Bool :=
+  if x.v6 then x.addr == 1 || (x.addr / 2 ^ 32 == 0xffff && loopbackNet4.contains (x.addr % 2 ^ 32))
+  else loopbackNet4.contains x.addr
+
+/-- "loopback explicitly set via OutboundIPRangesInclude": some included range (of either family) is
+    written with a loopback address. `*` does not count. -/
+def loopbackIncluded (c : Config) : Bool :=
+  !c.outIncludeAll && c.outInclude.any writtenAsLoopback
+
 def hasProxyIdentity (c : Config) : Bool := !c.proxyUIDs.isEmpty || !c.proxyGIDs.isEmpty
 
 /-- Application traffic on `lo` is handed back untouched ("appN => appN by lo"): some proxy
     identity is configured, no loopback range was explicitly included, and - with DNS capture -
     the packet is not TCP port 53 (which must stay capturable for a resolver on localhost). -/
 def loopbackBypass (c : Config) (p : Packet) : Bool :=
-  onLo p && c.noLoopbackIncluded && (!c.dns || (isTcp p && p.dport != 53))
+  onLo p && !loopbackIncluded c && (!dnsActive c || (isTcp p && p.dport != 53))
 
 /-- DNS capture applies: port 53 over TCP or UDP to a captured resolver. -/
 def dnsCaptured (c : Config) (p : Packet) : Bool :=
-  c.dns && isTcpUdp p && p.dport == 53 &&
+  dnsActive c && isTcpUdp p && p.dport == 53 &&
   (c.captureAllDNS || (if p.v6 then c.dnsV6 else c.dnsV4).contains p.dst)
 
 /-- **Outbound capture policy** for application traffic. -/
@@ -109,7 +130,7 @@ def OwnerId.owns (p : Packet) : OwnerId → Bool
     non-loopback address (the pod's own address) is sent to the inbound listener. -/
 def selfCall (c : Config) (p : Packet) : OwnerId → Bool
   | .uid _ => onLo p && !loopbackDst c p && isTcp p &&
-              (if c.dns then !(p.dport == 53 || p.dport == c.inboundTunnelPort) else p.dport != c.inboundTunnelPort)
+              (if dnsActive c then !(p.dport == 53 || p.dport == c.inboundTunnelPort) else p.dport != c.inboundTunnelPort)
   | .gid _ => onLo p && !loopbackDst c p && isTcp p && p.dport != c.inboundTunnelPort
 
 /-- Outcome of the identity blocks: `some true` = to the inbound listener, `some false` = passed
